@@ -579,6 +579,10 @@ pub fn run_clone(dir: &Path, b: &Built, sc: &Scenario, tag: &str, faults: &Fault
     let mut run = Run::new(dir, tag, scn::clone_args(&spec));
     run.watch = vec![b.out_path.clone(), b.arch.path.clone()];
     run.log_reads = true;
+    // One scenario in five spells its paths relative to the working directory.
+    if (sc.src_seed >> 21) % 5 == 0 {
+        run.relativize_args(((sc.src_seed >> 24) % 2) as u8);
+    }
     if let Some(s) = &b.stdin_seed {
         run.stdin = Some((s.clone(), sc.src_seed | 1));
     }
